@@ -60,3 +60,7 @@ def independent_boson(inp):
                 if err > 2e-6:
                     bad.append({'method': name, 'dkmax': K, 'add_correlation_time': tau, 'step': n, 'max_error': err})
     return {'violates': bool(bad), 'detail': bad[:4], 'n_bad': len(bad)}
+
+
+# thorough tier (bounded native sweeps): (function, inputs, obligation of the open finding it reproduces or None)
+THOROUGH = [('independent_boson', {}, None)]
